@@ -1,7 +1,7 @@
 (* C05 - Triangle evaluation equals the bivariate Bernstein definition. Statements only. *)
-From Coq Require Import List Arith QArith Qcanon.
+From Coq Require Import List Arith ZArith QArith Qcanon Reals.
 From BZ Require Import Base.Ops Base.QcInst Model.Curve Model.Triangle Model.TrianglePy
-  Theory.CurveEval Theory.CurveEvalExtra Theory.TriEval Theory.TriEdges.
+  Theory.CurveEval Theory.CurveEvalExtra Theory.TriEval Theory.TriEdges Base.RInst Gen.PyCurveHelpers Theory.CurveTables Theory.Rounding Theory.TriRound.
 Import ListNotations.
 
 (* evaluate_barycentric (row-wise curve evaluation, running binomial, Horner in lambda3) equals
@@ -39,6 +39,42 @@ Print Assumptions C05_edges_are_restrictions.
 Theorem C05_running_binomial_exact_double : forallb tri_binom_exact_double (seq 1 54) = true.
 Proof. exact tri_binom_double_exact_to_54. Qed.
 Print Assumptions C05_running_binomial_exact_double.
+
+(* ROUNDING (standard model of floating point, as in C01): the model of evaluate_barycentric executed in any arithmetic
+   `fl` with relative error u per operation that represents integers with odd part < 2^53 exactly differs from the
+   bivariate Bernstein definition by at most ((1+u)^(2d+4) - 1) sum |d!/(i!j!k!) l1^i l2^j l3^k| |v_ijk| for
+   barycentric input, every degree whose running binomial is exact (all d <= 54 by the theorem above), every net *)
+Theorem C05_rounding_error_bound_barycentric :
+  forall (u : R) (fl : R -> R), (0 <= u)%R ->
+  (forall x, (Rabs (fl x - x) <= u * Rabs x)%R) ->
+  (forall z : Z, repr53 z = true -> fl (IZR z) = IZR z) ->
+  forall (d : nat) (v : list R) (l1 l2 l3 : R), tri_binom_exact_double d = true -> (Z.of_nat d + 1 < 2 ^ 53)%Z -> length v = tri_size d ->
+  (Rabs (tri_eval (FlOps fl) vs_max_nodes d v l1 l2 l3 - tri_bernstein ROps d v l1 l2 l3)
+   <= ((1 + u) ^ (2 * d + 4) - 1) * tri_bernstein ROps d (map Rabs v) (Rabs l1) (Rabs l2) (Rabs l3))%R.
+Proof.
+  intros u fl Hu Hs Hi d v l1 l2 l3 Hb Hd Hv.
+  exact (proj1 (tri_eval_rounding u Hu fl Hs Hi 0 l1 l1 (Rabs l1) l2 l3 vs_max_nodes d v (approx_exact u l1)
+                  running_binomial_exact_below_switch Hb Hd Hv)).
+Qed.
+Print Assumptions C05_rounding_error_bound_barycentric.
+(* Cartesian input: lambda1 = fl(fl(1 - s) - t) already carries two roundings and may cancel, so its majorant is |1-s| + |t| *)
+Theorem C05_rounding_error_bound_cartesian :
+  forall (u : R) (fl : R -> R), (0 <= u)%R ->
+  (forall x, (Rabs (fl x - x) <= u * Rabs x)%R) ->
+  (forall z : Z, repr53 z = true -> fl (IZR z) = IZR z) ->
+  forall (d : nat) (v : list R) (s t : R), tri_binom_exact_double d = true -> (Z.of_nat d + 1 < 2 ^ 53)%Z -> length v = tri_size d ->
+  (Rabs (tri_eval_cartesian (FlOps fl) vs_max_nodes d v s t - tri_bernstein ROps d v (1 - s - t) s t)
+   <= ((1 + u) ^ (4 * d + 4) - 1) * tri_bernstein ROps d (map Rabs v) (Rabs (1 - s) + Rabs t) (Rabs s) (Rabs t))%R.
+Proof.
+  intros u fl Hu Hs Hi d v s t Hb Hd Hv. unfold tri_eval_cartesian.
+  assert (H1 : approx u 2 (osub (FlOps fl) (osub (FlOps fl) (o1 (FlOps fl)) s) t) (1 - s - t)%R (Rabs (1 - s) + Rabs t)%R).
+  { cbn [osub o1 FlOps]. apply (approx_sub u Hu fl Hs 1).
+    - apply (approx_sub_exact u Hu fl Hs).
+    - apply (approx_weaken u Hu 0); [repeat constructor | apply approx_exact]. }
+  exact (proj1 (tri_eval_rounding u Hu fl Hs Hi 2 _ _ _ s t vs_max_nodes d v H1
+                  running_binomial_exact_below_switch Hb Hd Hv)).
+Qed.
+Print Assumptions C05_rounding_error_bound_cartesian.
 
 Example C05_example :
   Qc_eqb (tri_evaluate_barycentric_py 2 (qcs [0; 1; 2; 0; 1; 4]%Q) (Q2Qc (1#4)) (Q2Qc (1#4)) (Q2Qc (1#2))) (Q2Qc (3#2)) = true.
